@@ -597,6 +597,13 @@ printf("dgssvx: Fact=%4d, Trans=%4d, equed=%c\n",
                     zd_mult(&Bmat[i+j*ldb], &Bmat[i+j*ldb], C[i]);
         }
 
+        /* For row-wise storage AA = transpose(A), so A**H = conj(AA): solve
+           conj(AA)*X = B as AA*conj(X) = conj(B). */
+        if ( A->Stype == SLU_NR && options->Trans == CONJ )
+            for (j = 0; j < nrhs; ++j)
+                for (i = 0; i < A->nrow; ++i)
+                    Bmat[i + j*ldb].i = -Bmat[i + j*ldb].i;
+
         /* Compute the solution matrix X. */
         for (j = 0; j < nrhs; j++)  /* Save a copy of the right hand sides */
             for (i = 0; i < B->nrow; i++)
@@ -616,6 +623,13 @@ printf("dgssvx: Fact=%4d, Trans=%4d, equed=%c\n",
             for (j = 0; j < nrhs; ++j) ferr[j] = berr[j] = 1.0;
         }
         utime[REFINE] = SuperLU_timer_() - t0;
+
+        if ( A->Stype == SLU_NR && options->Trans == CONJ )
+            for (j = 0; j < nrhs; ++j)
+                for (i = 0; i < A->nrow; ++i) {
+                    Bmat[i + j*ldb].i = -Bmat[i + j*ldb].i;
+                    Xmat[i + j*ldx].i = -Xmat[i + j*ldx].i;
+                }
 
         /* Transform the solution matrix X to a solution of the original system. */
         if ( notran ) {
